@@ -302,8 +302,10 @@ fn seq_family(prop: &str) -> i32 {
     }
     let plans: Vec<SeqPlan> = if !thorough {
         vec![
-            SeqPlan { geo: images::G9, images: vec!["libfmt", "data"], cfgs: vec!["small"], depth: 3, secs: 10 },
-            SeqPlan { geo: images::G10, images: vec!["libfmt", "data"], cfgs: vec!["small", "ample"], depth: 3, secs: 14 },
+            SeqPlan { geo: images::G9, images: vec!["libfmt", "data"], cfgs: vec!["small"], depth: 4, secs: 16 },
+            SeqPlan { geo: images::G10, images: vec!["libfmt"], cfgs: vec!["small"], depth: 4, secs: 12 },
+            SeqPlan { geo: images::G10, images: vec!["data"], cfgs: vec!["small", "ample"], depth: 3, secs: 10 },
+            SeqPlan { geo: images::G10, images: vec!["libfmt"], cfgs: vec!["ample"], depth: 3, secs: 5 },
             SeqPlan { geo: images::G12, images: vec!["libfmt"], cfgs: vec!["small"], depth: 2, secs: 5 },
             SeqPlan { geo: images::G12B, images: vec!["compressed", "compressed-straddle", "backing"], cfgs: vec!["small"], depth: 2, secs: 6 },
         ]
@@ -508,6 +510,10 @@ pub fn sched_curated(g: &Geo) -> Vec<(&'static str, &'static str, Vec<Op>, Vec<V
         ("flush-vs-discard", "libfmt", vec![w(0, cs, 0x51), w(tb, cs, 0x52), Op::Flush, w(cs, cs, 0x53)], vec![vec![Op::Flush], vec![Op::Discard { off: tb, len: cs }]]),
         // multi-cluster write vs sub-cluster write
         ("batch-vs-sub", "libfmt", vec![], vec![vec![w(0, 3 * cs, 0x11)], vec![w(cs, bs, 0x12)], vec![r(0, 2 * cs)]]),
+        // overlapping discards of one cluster while a flush holds the slice's read lock / with a cold cache
+        ("flush-vs-two-discards", "libfmt", vec![w(0, cs, 0x51), w(cs, cs, 0x52)], vec![vec![Op::Flush], vec![Op::Discard { off: 0, len: cs }], vec![Op::Discard { off: 0, len: 2 * cs }]]),
+        ("two-discards-vs-write-cold-cache", "libfmt", vec![w(0, cs, 0x51), Op::Reopen], vec![vec![Op::Discard { off: 0, len: cs }], vec![Op::Discard { off: 0, len: cs }], vec![w(4 * cs, cs, 0x12), r(4 * cs, cs)]]),
+        ("flush-vs-two-discards-vs-write", "libfmt", vec![w(0, cs, 0x51)], vec![vec![Op::Flush], vec![Op::Discard { off: 0, len: cs }], vec![Op::Discard { off: 0, len: cs }], vec![w(4 * cs, cs, 0x12)]]),
         // two flushes
         ("two-flushes", "libfmt", vec![w(0, cs, 0x51), w(tb, bs, 0x52)], vec![vec![Op::Flush], vec![Op::Flush]]),
         // COW of a backing cluster racing a read and another sub-write of the same cluster
@@ -693,7 +699,7 @@ pub fn sched_family(prop: &str) -> i32 {
     let run = Run::new(prop, "model_checking");
     let thorough = run.thorough();
     let g = images::G10;
-    let (bound, per_scn_execs, secs): (usize, u64, u64) = if thorough { (3, 400_000, 1200) } else { (2, 6_000, 40) };
+    let (bound, per_scn_execs, secs): (usize, u64, u64) = if thorough { (3, 400_000, 1200) } else { (2, 15_000, 40) };
     let setups: Vec<&str> = if thorough {
         vec!["empty", "Xdirty", "XYflushed", "Xdiscarded", "backing", "compressed"]
     } else {
@@ -756,7 +762,7 @@ pub fn crash_family(prop: &str) -> i32 {
     // (geometry, images, cfgs, depth, seconds)
     let plans: Vec<SeqPlan> = if !thorough {
         vec![
-            SeqPlan { geo: images::G9, images: vec!["libfmt"], cfgs: vec!["small"], depth: 4, secs: 12 },
+            SeqPlan { geo: images::G9, images: vec!["libfmt"], cfgs: vec!["small"], depth: 5, secs: 14 },
             SeqPlan { geo: images::G10, images: vec!["libfmt", "data"], cfgs: vec!["small"], depth: 4, secs: 24 },
         ]
     } else {
@@ -828,6 +834,50 @@ pub fn crash_family(prop: &str) -> i32 {
             }
         }
     }
+    if prop == "C05" {
+        // task 0 syncs while another task works on other ranges; every crash state after the sync
+        let g = images::G10;
+        let (cs, bs, sl, tb) = (g.cs(), g.bs(), g.sl(), g.tb());
+        let w = |off: u64, len: u64, tag: u32| Op::Write { off, len: len as usize, tag };
+        let r = |off: u64, len: u64| Op::Read { off, len: len as usize };
+        let img = images::lib_formatted(g.cluster_bits, g.order, g.vsize());
+        let others: Vec<(&str, Vec<Op>)> = vec![
+            ("write-sibling-slice", vec![w(sl, bs, 0x14)]),
+            ("write-other-table", vec![w(tb, bs, 0x15)]),
+            ("read-other-table", vec![r(tb, bs)]),
+            ("write-sibling-then-read-other-table", vec![w(sl, bs, 0x14), r(tb, bs)]),
+            ("write-next-cluster", vec![w(cs, cs, 0x16)]),
+            ("discard-next-cluster", vec![Op::Discard { off: cs, len: cs }]),
+            ("flush", vec![Op::Flush]),
+            ("shrink", vec![Op::Shrink]),
+        ];
+        let setups: Vec<(&str, Vec<Op>)> = vec![
+            ("X-dirty", vec![w(0, cs, 0x51)]),
+            ("X-dirty-other-table-flushed", vec![w(tb, bs, 0x53), Op::Flush, w(0, bs, 0x51)]),
+            ("XY-flushed-Y-rewritten", vec![w(0, cs, 0x51), w(cs, cs, 0x52), Op::Flush, w(cs, cs, 0x54)]),
+        ];
+        let mut sc = vec![];
+        for (sn, setup) in setups.iter() {
+            for (on, ops) in others.iter() {
+                for cfgn in ["small", "ample"] {
+                    sc.push(SchedScenario { name: format!("{}:sync||{}", sn, on), img: img.clone(), cfg: cfg_of(&g, cfgn), cfg_name: cfgn.into(), setup: setup.clone(), tasks: vec![vec![Op::Sync], ops.clone()], fused: true });
+                }
+            }
+        }
+        let (b, per, secs) = if thorough { (3, 100_000, 600) } else { (2, 3_000, 20) };
+        match sched_explore(&run, &["C05"], &sc, b, per, secs) {
+            Ok(sum) => {
+                let n = crate::lin::CRASH_IMAGES.load(std::sync::atomic::Ordering::Relaxed);
+                images_n += n;
+                distinct += n;
+                conc = json!({"scenarios": sum.total, "executions": sum.execs, "distinct_crash_images_checked": n, "deviation_bound_completed": sum.min_bound, "deviation_bound_target": b, "samples": sum.samples});
+            }
+            Err(e) => {
+                println!("machinery failure: {}", e);
+                return 2;
+            }
+        }
+    }
     let cov = json!({
         "concurrent_part": conc,
         "evaluations": images_n,
@@ -858,7 +908,7 @@ pub fn fault_check() -> i32 {
     let thorough = run.thorough();
     // (geometry, image kinds, cfg, depth, pairs)
     let plans: Vec<(Geo, Vec<&str>, &str, usize, bool)> = if !thorough {
-        vec![(images::G9, vec!["libfmt"], "small", 2, false), (images::G10, vec!["libfmt", "data"], "small", 2, false), (images::G10, vec!["libfmt"], "small", 3, false)]
+        vec![(images::G9, vec!["libfmt"], "small", 3, false), (images::G10, vec!["libfmt", "data"], "small", 3, false), (images::G10, vec!["backing", "compressed"], "small", 2, false)]
     } else {
         vec![
             (images::G9, vec!["libfmt", "data"], "small", 4, false),
@@ -870,6 +920,15 @@ pub fn fault_check() -> i32 {
     qcow2_rs::verif::set_order_salt(0);
     let deadline = deadline_in(if thorough { 1500 } else { 40 });
     let mut total = FaultStats::default();
+    // L1 growth under faults: (image, alphabet, depth)
+    let growth: Vec<(ImageSet, Geo, Vec<Op>, usize)> = {
+        let w = |off: u64, len: u64, tag: u32| Op::Write { off, len: len as usize, tag };
+        let (cs, tb) = (512u64, 64 * 512u64);
+        vec![
+            (images::initial_images(&images::G9, &["shortl1"]).remove(0), images::G9, vec![w(tb, cs, 1), w(2 * tb + cs, cs, 2), w(0, cs, 4), Op::Flush], if thorough { 3 } else { 2 }),
+            (crate::extra::short_l1_image(), crate::extra::g9_wide(192), vec![w(tb, cs, 1), w(64 * tb, cs, 2), w(130 * tb, cs, 4), Op::Flush], 2),
+        ]
+    };
     let mut samples = vec![];
     let mut scen = vec![];
     let mut capped = false;
@@ -937,6 +996,46 @@ pub fn fault_check() -> i32 {
             total.requests += st.requests;
         }
     }
+    for (img, g, alphabet, depth) in growth {
+        let sc = FaultScenario { img: img.clone(), cfg: cfg_of(&g, "small"), cfg_name: "small".to_string() };
+        let hists = all_histories(&alphabet, depth);
+        let results: Vec<(FaultStats, Vec<Violation>)> = hists
+            .par_iter()
+            .map(|h| {
+                let mut st = FaultStats::default();
+                let mut v = vec![];
+                st.histories = 1;
+                let (start, n) = match sc.count_requests(h) {
+                    Ok(x) => x,
+                    Err(_) => return (st, v),
+                };
+                st.requests = (n - start) as u64;
+                for i in start..n {
+                    v.extend(sc.run(h, &Plan::Ids(vec![i]), &mut st));
+                }
+                for k in ['W', 'F'] {
+                    v.extend(sc.run(h, &Plan::Kind(k), &mut st));
+                }
+                let mut seen = std::collections::HashSet::new();
+                v.retain(|x| seen.insert(x.class.clone()));
+                (st, v)
+            })
+            .collect();
+        let mut st = FaultStats::default();
+        for (s, v) in results {
+            st.histories += s.histories;
+            st.runs += s.runs;
+            st.changed_result += s.changed_result;
+            st.requests += s.requests;
+            run.add_all(v);
+        }
+        scen.push(json!({"image": img.name, "cfg": "small", "depth": depth, "pairs": false, "histories": st.histories, "of": hists.len(),
+            "fault_runs": st.runs, "runs_where_a_request_failed": st.changed_result, "requests_in_fault_free_runs": st.requests}));
+        total.histories += st.histories;
+        total.runs += st.runs;
+        total.changed_result += st.changed_result;
+        total.requests += st.requests;
+    }
     let cov = json!({
         "evaluations": total.runs,
         "distinct_nontrivial": total.changed_result,
@@ -961,7 +1060,7 @@ pub fn cow_check() -> i32 {
     let thorough = run.thorough();
     let kinds_all = vec!["backing", "backing-short", "backing-long", "chain2", "compressed", "compressed-boundary", "compressed-straddle"];
     let plans: Vec<(Geo, Vec<&str>, Vec<&str>, usize, u64)> = if !thorough {
-        vec![(images::G10, kinds_all.clone(), vec!["small"], 3, 30), (images::G9, vec!["backing", "compressed", "compressed-straddle"], vec!["small"], 3, 10)]
+        vec![(images::G10, kinds_all.clone(), vec!["small"], 4, 40), (images::G9, vec!["backing", "compressed", "compressed-straddle"], vec!["small"], 3, 10)]
     } else {
         vec![
             (images::G10, kinds_all.clone(), vec!["small", "ample"], 5, 600),
@@ -1059,7 +1158,7 @@ pub fn alloc_check() -> i32 {
     qcow2_rs::verif::set_order_salt(0);
     let gf = crate::extra::GF;
     let mut plans: Vec<(Geo, ImageSet, &str, usize, u64)> = vec![
-        (gf.clone(), crate::extra::frag_image(), "small", if thorough { 4 } else { 3 }, if thorough { 300 } else { 12 }),
+        (gf.clone(), crate::extra::frag_image(), "small", if thorough { 5 } else { 4 }, if thorough { 400 } else { 20 }),
         (gf.clone(), images::lib_formatted(gf.cluster_bits, gf.order, gf.vsize()), "small", if thorough { 4 } else { 3 }, if thorough { 300 } else { 8 }),
         (images::G9, images::lib_formatted(9, 6, images::G9.vsize()), "small", if thorough { 4 } else { 2 }, if thorough { 200 } else { 4 }),
     ];
@@ -1107,6 +1206,8 @@ pub fn alloc_check() -> i32 {
     if !thorough {
         sscn.truncate(5);
     }
+    sscn.push(mk("flush||discard||discard||write", libf.clone(), &gf, vec![w(0, cs, 0x51)], vec![vec![Op::Flush], vec![Op::Discard { off: 0, len: cs }], vec![Op::Discard { off: 0, len: cs }], vec![w(4 * cs, cs, 0x12)]]));
+    sscn.push(mk("discard||discard||alloc (cold cache)", libf.clone(), &gf, vec![w(0, cs, 0x51), Op::Reopen], vec![vec![Op::Discard { off: 0, len: cs }], vec![Op::Discard { off: 0, len: cs }], vec![Op::Alloc(1)]]));
     let (b, per, secs) = if thorough { (3, 300_000, 600) } else { (2, 5_000, 20) };
     let sum = match sched_explore(&run, &["C08"], &sscn, b, per, secs) {
         Ok(s) => s,
@@ -1238,6 +1339,14 @@ pub fn growth_check() -> i32 {
         (crate::extra::rb_edge_image(), rb_alpha, if thorough { 5 } else { 3 }, if thorough { 300 } else { 10 }, true),
         (crate::extra::rt_edge_image(), rt_alpha, if thorough { 4 } else { 3 }, if thorough { 600 } else { 15 }, false),
         (crate::extra::short_l1_image(), l1_alpha, if thorough { 4 } else { 3 }, if thorough { 600 } else { 15 }, false),
+        // short L1 whose cluster has room for the missing entries: extension in place
+        (
+            images::initial_images(&images::G9, &["shortl1"]).remove(0),
+            vec![w(tb, cs, 1), w(2 * tb + cs, cs, 2), w(tb - cs, 2 * cs, 3), w(0, cs, 4), Op::Discard { off: tb, len: cs }, Op::Flush, Op::Sync, Op::Reopen],
+            if thorough { 5 } else { 4 },
+            if thorough { 300 } else { 10 },
+            true,
+        ),
     ];
     let mut viol: Vec<Violation> = vec![];
     let mut scen = vec![];
